@@ -238,6 +238,25 @@ class _Normalise(ast.NodeTransformer):
                                     return node
                             out.append(_Sub().visit(nxt))
                             done = True
+                    if not done and isinstance(nxt, ast.For) and isinstance(nxt.iter, ast.Name) and nxt.iter.id == nm and isinstance(nxt.target, ast.Name) \
+                            and isinstance(s.value, (ast.ListComp, ast.GeneratorExp)) and len(s.value.generators) == 1 and not s.value.generators[0].is_async \
+                            and isinstance(s.value.generators[0].target, ast.Name) and isinstance(s.value.elt, ast.Name) \
+                            and s.value.elt.id == s.value.generators[0].target.id and s.value.generators[0].ifs and not nxt.orelse:
+                        # `sel = [v for v in IT if C(v)]; for x in sel: BODY`  ->  `for x in IT: if C(x): BODY`  (the filter becomes a branch condition of the body)
+                        import copy as _copy
+                        gen = s.value.generators[0]
+                        var, tgt = gen.target.id, nxt.target.id
+
+                        class _Ren(ast.NodeTransformer):
+                            def visit_Name(self, node):
+                                if node.id == var:
+                                    return ast.copy_location(ast.Name(id=tgt, ctx=node.ctx), node)
+                                return node
+                        tests = [_Ren().visit(_copy.deepcopy(t)) for t in gen.ifs]
+                        test = tests[0] if len(tests) == 1 else ast.copy_location(ast.BoolOp(op=ast.And(), values=tests), tests[0])
+                        inner = ast.copy_location(ast.If(test=test, body=nxt.body, orelse=[]), nxt)
+                        out.append(ast.copy_location(ast.For(target=nxt.target, iter=gen.iter, body=[inner], orelse=[], type_comment=None), nxt))
+                        done = True
                     if not done and isinstance(s.value, ast.IfExp) and _is_pure_chain(s.value.body) and _is_pure_chain(s.value.orelse) \
                             and isinstance(nxt, (ast.Assign, ast.Expr, ast.Return)):
                         # a callee chosen by a conditional expression for the next statement only:
@@ -279,6 +298,105 @@ class _Normalise(ast.NodeTransformer):
         return node
 
     visit_AsyncFunctionDef = visit_FunctionDef
+
+    def visit_For(self, node):
+        # `for t in (A, B): BODY` over a short literal tuple of names / constants  ->  BODY[t:=A]; BODY[t:=B]   (no break; `continue` only as the last
+        # statement of a path through the body, where it means "fall out of this copy")
+        self.generic_visit(node)
+        it = node.iter
+        if not (isinstance(it, (ast.Tuple, ast.List)) and 1 <= len(it.elts) <= 4 and isinstance(node.target, ast.Name) and not node.orelse
+                and all(_is_pure_chain(e) or isinstance(e, ast.Constant) for e in it.elts)):
+            return node
+        t = node.target.id
+        for x in ast.walk(ast.Module(body=node.body, type_ignores=[])):
+            if isinstance(x, (ast.Break, ast.FunctionDef, ast.AsyncFunctionDef, ast.Lambda, ast.ClassDef, ast.While, ast.For, ast.GeneratorExp, ast.ListComp, ast.SetComp, ast.DictComp)):
+                return node
+            if isinstance(x, ast.Name) and x.id == t and isinstance(x.ctx, (ast.Store, ast.Del)):
+                return node
+
+        def tail_only(stmts):
+            """every `continue` is the last statement of its block and that block is in tail position"""
+            for i, s in enumerate(stmts):
+                last = i == len(stmts) - 1
+                if isinstance(s, ast.Continue):
+                    if not last:
+                        return False
+                    continue
+                subs = []
+                if isinstance(s, ast.If):
+                    subs = [s.body, s.orelse]
+                elif isinstance(s, ast.Try):
+                    subs = [s.body, s.orelse, s.finalbody] + [h.body for h in s.handlers]
+                elif isinstance(s, (ast.With, ast.AsyncWith)):
+                    subs = [s.body]
+                for b in subs:
+                    has = any(isinstance(y, ast.Continue) for z in b for y in ast.walk(z))
+                    if has and (not last or not tail_only(b)):
+                        return False
+                    if isinstance(s, ast.Try) and has and (b is s.body and (s.orelse or s.finalbody)):
+                        return False
+            return True
+        if not tail_only(node.body):
+            return node
+        import copy as _copy
+        out = []
+        for e in it.elts:
+            class _Sub(ast.NodeTransformer):
+                def visit_Name(self, n2):
+                    if n2.id == t and isinstance(n2.ctx, ast.Load):
+                        return ast.copy_location(_copy.deepcopy(e), n2)
+                    return n2
+
+                def visit_Continue(self, n2):
+                    return ast.copy_location(ast.Pass(), n2)
+            out.extend(_Sub().visit(_copy.deepcopy(s)) for s in node.body)
+        return out
+
+    # leading parameters of a few standard-library functions: keyword spellings of these are made positional (`relpath(p, start=d)` -> `relpath(p, d)`)
+    _STD_SIGS = {
+        "os.path.relpath": ("path", "start"), "os.replace": ("src", "dst"), "os.rename": ("src", "dst"), "os.symlink": ("src", "dst"), "os.link": ("src", "dst"),
+        "shutil.copytree": ("src", "dst"), "shutil.copy": ("src", "dst"), "shutil.copy2": ("src", "dst"), "shutil.copyfile": ("src", "dst"), "shutil.move": ("src", "dst"),
+        "os.remove": ("path",), "os.unlink": ("path",), "os.rmdir": ("path",), "os.mkdir": ("path",), "os.makedirs": ("name",), "shutil.rmtree": ("path",),
+        "os.path.join": (), "os.listdir": ("path",), "os.path.exists": ("path",), "os.path.isdir": ("s",), "os.path.isfile": ("path",),
+    }
+
+    def visit_Call(self, node):
+        self.generic_visit(node)
+        try:
+            fn = ast.unparse(node.func)
+        except Exception:
+            return node
+        sig = self._STD_SIGS.get(fn)
+        if sig and node.keywords and not any(isinstance(a, ast.Starred) for a in node.args) and not any(k.arg is None for k in node.keywords):
+            args = list(node.args)
+            kws = list(node.keywords)
+            while len(args) < len(sig):
+                want = sig[len(args)]
+                hit = [k for k in kws if k.arg == want]
+                if not hit:
+                    break
+                args.append(hit[0].value)
+                kws.remove(hit[0])
+            if len(args) != len(node.args):
+                node.args, node.keywords = args, kws
+        return node
+
+    def visit_Expr(self, node):
+        # `yield from filter(F, IT)`  ->  `for _x in IT: if F(_x): yield _x`   (F a plain name / attribute chain, or None)
+        self.generic_visit(node)
+        v = node.value
+        if isinstance(v, ast.YieldFrom) and isinstance(v.value, ast.Call) and isinstance(v.value.func, ast.Name) and v.value.func.id == "filter" \
+                and len(v.value.args) == 2 and not v.value.keywords and (_is_pure_chain(v.value.args[0]) or (isinstance(v.value.args[0], ast.Constant) and v.value.args[0].value is None)):
+            f, it = v.value.args
+            var = ast.Name(id="_flt_item", ctx=ast.Load())
+            test = var if isinstance(f, ast.Constant) else ast.Call(func=f, args=[var], keywords=[])
+            body = ast.If(test=test, body=[ast.Expr(value=ast.Yield(value=ast.Name(id="_flt_item", ctx=ast.Load())))], orelse=[])
+            loop = ast.For(target=ast.Name(id="_flt_item", ctx=ast.Store()), iter=it, body=[body], orelse=[], type_comment=None)
+            for x in ast.walk(loop):
+                if not hasattr(x, "lineno"):
+                    ast.copy_location(x, node)
+            return ast.copy_location(loop, node)
+        return node
 
     def visit_With(self, node):
         # `with contextlib.suppress(E1, E2): body`  ->  `try: body  except (E1, E2): pass`  (what it means; error-discipline rules judge the handler)
